@@ -30,6 +30,7 @@ import (
 	"github.com/jech/storrent/alloc"
 	"github.com/jech/storrent/config"
 	"github.com/jech/storrent/hash"
+	"github.com/jech/storrent/httpclient"
 	"github.com/jech/storrent/peer"
 	"github.com/jech/storrent/protocol"
 	"github.com/jech/storrent/webseed"
@@ -109,6 +110,7 @@ type worldCfg struct {
 	AutoDrain bool // deliver torrent events automatically after every stimulus
 	IdleRate  int  // config.IdleRate (0 = idle prefetch off)
 	InfoSize  int  // magnet worlds: size of the generated info dictionary (0 = natural)
+	InfoKind  string // magnet worlds: "" = sane; otherwise an authentic but degenerate dictionary (see degenerateInfo)
 }
 
 // World is one live instance.
@@ -128,6 +130,7 @@ type World struct {
 	transitions   int
 	log     []string
 	sawOverlong bool
+	seed      *seedServer
 	corruptions int
 	consumers map[string]int // C10 reference model: registrations "piece/prio" -> count
 	haves     map[uint32]int // TorHave(true) events handled, per piece
@@ -338,6 +341,59 @@ func buildInfo1(g wgeom, truth []byte, name string, padTo int) []byte {
 	return b
 }
 
+// degenerateInfo returns an info dictionary that is authentic (the magnet names
+// its hash) but whose contents are inconsistent: it must never make the torrent
+// usable, and must not crash the client.
+func degenerateInfo(g wgeom, truth []byte, kind string) []byte {
+	var pieces []byte
+	for i := 0; i < g.npieces(); i++ {
+		s := int64(i) * int64(g.PSize)
+		h := sha1.Sum(truth[s : s+int64(g.pieceLen(uint32(i)))])
+		pieces = append(pieces, h[:]...)
+	}
+	d := &rc.Dict{}
+	d.Set("length", g.Length)
+	d.Set("name", "world")
+	d.Set("piece length", int64(g.PSize))
+	d.Set("pieces", pieces)
+	switch kind {
+	case "zero-piece-length":
+		d.Set("piece length", int64(0))
+	case "odd-piece-length":
+		d.Set("piece length", int64(g.PSize)+1)
+	case "short-pieces":
+		d.Set("pieces", pieces[:20])
+	case "long-pieces":
+		d.Set("pieces", append(append([]byte{}, pieces...), pieces...))
+	case "odd-pieces":
+		d.Set("pieces", pieces[:19])
+	case "no-name":
+		d.Set("name", "")
+	case "neg-file", "wrap-files":
+		d = &rc.Dict{}
+		f1, f2 := &rc.Dict{}, &rc.Dict{}
+		f1.Set("length", g.Length+5000)
+		f1.Set("path", []rc.Value{"a"})
+		f2.Set("length", int64(-5000))
+		f2.Set("path", []rc.Value{"b"})
+		if kind == "wrap-files" {
+			f1.Set("length", int64(9223372036854775807))
+			f2.Set("length", int64(9223372036854775807))
+		}
+		d.Set("files", []rc.Value{f1, f2})
+		d.Set("name", "world")
+		d.Set("piece length", int64(g.PSize))
+		d.Set("pieces", pieces)
+	case "not-a-dict":
+		return []byte("li1ei2ei3ee")
+	case "huge-length":
+		d.Set("length", int64(1)<<46)
+	default:
+		panic("unknown degenerate info " + kind)
+	}
+	return rc.Bencode(d)
+}
+
 var discardLog = log.New(io.Discard, "", 0)
 
 // newWorld builds the world; must be called inside a bubble.
@@ -378,10 +434,15 @@ func newWorld(cfg worldCfg) *World {
 	config.Debug = false
 	w.allocBase = alloc.Bytes()
 	w.info = buildInfo(g, w.truth, "world", cfg.InfoSize)
+	if cfg.InfoKind != "" {
+		w.info = degenerateInfo(g, w.truth, cfg.InfoKind)
+	}
 	hsh := sha1.Sum(w.info)
 	var ws []webseed.Webseed
 	if cfg.Webseed {
 		ws = append(ws, webseed.New("http://seed.example/world", true))
+		w.seed = &seedServer{mode: "honoured", truth: w.truth, chunk: 1 << 20}
+		httpclient.VerifInstall("", "", w.seed)
 	}
 	var t *Torrent
 	var err error
@@ -1362,6 +1423,17 @@ func (w *World) apply(tr string) bool {
 			return false
 		}
 		w.readers[arg(1)].cancel()
+	case "wsmode": // wsmode:<server behaviour>  how the web seed answers from now on
+		if w.seed == nil {
+			return false
+		}
+		w.seed.mu.Lock()
+		same := w.seed.mode == f[1]
+		w.seed.mode = f[1]
+		w.seed.mu.Unlock()
+		if same {
+			return false
+		}
 	case "evict":
 		cnt := w.t.Pieces.Expire(0, nil, func(i uint32) { w.t.Have(i, false) })
 		if cnt == 0 {
@@ -1502,6 +1574,9 @@ func (w *World) checkMetadata() {
 	t := w.t
 	if !w.cfg.Magnet || !t.InfoComplete() {
 		return
+	}
+	if w.cfg.InfoKind != "" {
+		w.problem("C12", "C12/degenerate-metadata-accepted/"+w.cfg.InfoKind, "the torrent became usable with an authentic but inconsistent info dictionary (%s)", w.cfg.InfoKind)
 	}
 	h := sha1.Sum(t.Info)
 	if !bytes.Equal(h[:], t.Hash) {
@@ -1711,6 +1786,9 @@ func (w *World) canon() string {
 	}
 	sort.Strings(cons)
 	fmt.Fprintf(&sb, "C %v", cons)
+	if w.seed != nil {
+		fmt.Fprintf(&sb, "|ws %s %d %v", w.seed.mode, w.t.webseeds[0].Count(), w.t.webseeds[0].Ready(false))
+	}
 	for _, c := range w.chans {
 		cl := false
 		select {
